@@ -62,6 +62,170 @@ CHECKS = {
         "workqueue runtimes; kernel inputs limited to the enumerated alphabets.",
         "E4",
     ),
+    "C02": (
+        "exploration",
+        "bounded exhaustive enumeration of tiny image pairs x intervals x measures x windows x subpix (+ single/paired "
+        "mask and grid deviations) on the real matching-cost classes, compared cell by cell with a per-pixel reference",
+        "Every interval (inside, straddling and outside the image), every measure/window/subpix, mono and 2-band images, "
+        "every single and pair of masked cells and grid deviations, and all images over a 3-symbol alphabet on the "
+        "smallest shapes are run through allocate_cost_volume/validity_mask/compute_cost_volume/cv_masked; each cost and "
+        "each NaN is compared with the documented measure (exact for sad/ssd/census, atol for zncc).",
+        "Trusted: mc/ref/cost.py; integer radiometry; images at least one window large.",
+        "E1",
+    ),
+    "C04": (
+        "exploration",
+        "bounded exhaustive enumeration of scenes (masks, intervals, grids, invalid_disparity) x every legal "
+        "post-disparity pipeline up to the bound, flags observed after every step of the real run and compared with a "
+        "reference of the documented bits",
+        "Pre-validation flags of every enumerated scene are compared bit by bit with mc/ref/flags.py (left and right), the "
+        "three-way equivalence invalid flag <=> all costs NaN <=> invalid_disparity is checked after every step, and for "
+        "every legal pipeline of <= 3/4 later steps (repeats included) each step may only add its own documented bits.",
+        "Trusted: reference of the documented bits; intervals bounded to |d| < width; instance-level observers.",
+        "E1",
+    ),
+    "C05": (
+        "exploration",
+        "bounded exhaustive enumeration of parameter values on and around every documented boundary (alone and in pairs "
+        "across steps) and of check histories sharing class-level schemas, against a table written from the statement",
+        "Every parameter of every built-in method takes every boundary / wrong-type value alone and in pairs through "
+        "PandoraMachine.check_conf, check_pipeline_section and the full check_conf on GeoTIFFs; defaults, preservation of "
+        "user keys and order, non-mutation and idempotence are asserted; every order of <= 3 checks of different "
+        "matching-cost classes / input forms is followed by boundary probes (shared schema dicts).",
+        "Trusted: mc/ref/config_table.py (values whose status the docs leave open are not asserted).",
+        "E1",
+    ),
+    "C06": (
+        "exploration",
+        "bounded exhaustive enumeration of cost triples / per-pixel cases (packed and 1x1) and of observed pipelines, "
+        "against closed-form V-fit and parabola references",
+        "Every cost triple over an 8-symbol alphabet through refinement_method, every (cost vector x received disparity x "
+        "incoming flag) through subpixel_refinement packed and as 1x1 datasets, and every pipeline of <= 3 steps containing "
+        "a refinement on 19 scenes: half-sample bound, fitted optimum and cost, never worse, inside interval, untouched "
+        "invalid pixels, exactly bit 3 otherwise, and totality (exceptions are violations).",
+        "Trusted: mc/ref/refine.py; value clauses on on-grid inputs only.",
+        "E1",
+    ),
+    "C07": (
+        "exploration",
+        "bounded exhaustive enumeration of left/right disparity rows over a small symbol alphabet (per-row packing) x "
+        "validity rows x thresholds x intervals on the real cross-checking step, against a transcription of the statement",
+        "Every pair of 1-row disparity maps of width 3/4 over integer, half-integer, NaN and invalid symbols, with every "
+        "validity row, threshold and interval departure, is cross-checked by the real step (stacked and as single rows) and "
+        "every flag, every unchanged disparity and the consistency band are compared with the statement.",
+        "Trusted: mc/ref/crosscheck.py.",
+        "E1",
+    ),
+    "C08": (
+        "exploration",
+        "bounded exhaustive enumeration of image pairs x interval forms x legal pipelines with validation; differential "
+        "oracle between the run and the mirrored run (no hand-written expected value)",
+        "Each case is two real runs, (L, R, [a,b]) and (R, L, [-b,-a]): right products of one must equal left products of "
+        "the other bit for bit (disparity, flags, confidence bands), for every pipeline with up to 2 (quick) / 3 (thorough) "
+        "extra steps, 33 matching-cost configurations and 14 interval forms; plus empty right dataset without validation "
+        "and neutrality of a fill-less cross-check.",
+        "Trusted: nothing but the mirroring construction; 2-band cases limited to what the library runs.",
+        "E1",
+    ),
+    "C09": (
+        "exploration",
+        "bounded exhaustive enumeration of nested interval pairs and grid deviations; differential oracle (slice of the "
+        "larger volume == smaller volume), plus interval membership of final disparities over single-scale pipelines",
+        "Every nested pair I in J within [-3,3] x measure x subpix x window, with and without cbca, every grid pair within "
+        "<= 2 cell deviations and constant grids vs scalars: volumes must agree exactly inside and be NaN outside; every "
+        "valid final disparity must lie in the requested interval after refinement / filter / fill.",
+        "Trusted: nothing but the slicing construction and integer radiometry.",
+        "E1",
+    ),
+    "C10": (
+        "exploration",
+        "bounded exhaustive enumeration of all small disparity maps over a symbol alphabet and of block-straddling shapes "
+        "on the real filters, against per-pixel (unblocked) references",
+        "All 3x3 (3x4) maps over {values, invalid via each bit} and position-coded maps of every shape around the 50/100 "
+        "pixel block sizes are filtered by median / bilateral / median_for_intervals and compared pixel by pixel with a "
+        "per-pixel reference: mask unchanged, invalid and border pixels untouched, median exact, bilateral rtol 1e-5.",
+        "Trusted: mc/ref/filters.py; bilateral restricted to odd window widths.",
+        "E1",
+    ),
+    "C11": (
+        "exploration",
+        "bounded exhaustive enumeration of small images x masks x cbca parameters with real and synthetic 'bitmask' cost "
+        "volumes (pixel i costs 2^i, so the aggregated sum is the set of pixels included), against a reference model",
+        "For every enumerated image pair, mask layout, cbca_distance / intensity, subpix and interval the aggregated "
+        "volume is compared with the documented support region (arms, combined arms, support sum / count), NaN in <=> NaN "
+        "out, and plane independence.",
+        "Trusted: mc/ref/cbca.py; monoband images.",
+        "E1",
+    ),
+    "C12": (
+        "exploration",
+        "bounded exhaustive enumeration of per-pixel cost vectors (packed) x step configurations and of every order of "
+        "<= 3 confidence steps in pipelines; float64 reference for values, differential oracle for 'only adds'",
+        "Every cost vector over three alphabets as pixels of one volume x 13 step configurations x min/max; every sequence "
+        "and naming of <= 3 confidence steps in 7 base pipelines compared with the same pipeline without them (cost volume, "
+        "existing bands, disparity map, flags bit-identical); band names, bracketing of the winner, risk order, ranges.",
+        "Trusted: mc/ref/confidence.py; costs exactly on an eta boundary accepted either way.",
+        "E1",
+    ),
+    "C13": (
+        "exploration",
+        "bounded exhaustive enumeration of local pipelines x intervals x crops (origins, sizes, coordinates kept or "
+        "restarted) and vertical flips; differential oracle on the dependency-cone interior (bit-identical)",
+        "Each case is one whole-image run, one flipped run and 6 (quick) / up to 96 (thorough) crop runs; every pixel whose "
+        "conservatively computed dependency cone lies inside the crop must have bit-identical disparity and flags; "
+        "compared-pixel counts are reported.",
+        "Trusted: mc/ref/cone.py (conservative cone); integer radiometry.",
+        "E1",
+    ),
+    "C14": (
+        "exploration",
+        "bounded exhaustive enumeration of all small maps over {valid values, invalid, occluded, mismatched} on the real "
+        "filling methods, against invariants transcribed from the statement",
+        "Every 3x3 / 2x4 map over the pixel-state alphabet is filled by mc-cnn and sgm interpolation: untouched unflagged "
+        "pixels, 8->4 / 9->5 bit replacement, finite fills within the valid range taken from (or median of) the first valid "
+        "pixels along the documented directions, flagged pixels without any valid pixel in sight stay invalid.",
+        "Trusted: mc/ref/fill.py (which candidate is taken is not asserted).",
+        "E1",
+    ),
+    "C16": (
+        "exploration",
+        "bounded exhaustive enumeration of tiny rasters (dtype, bands, nodata, masks) and of EVERY ROI x margins on the "
+        "real readers, against a reference of the statement",
+        "get_window for every ROI in [-3, n+2]^2 x margins {0,1,2}^4 and create_dataset_from_inputs for every ROI x margins "
+        "{0,2}^4, every raster/mask/nodata/dtype combination: samples, mask classes, disparity bands, coordinates and "
+        "refusals compared with 'crop of the full read clipped to the image'.",
+        "Trusted: mc/ref/dataset.py; GeoTIFF written by rasterio.",
+        "E1",
+    ),
+    "C17": (
+        "exploration",
+        "bounded exhaustive enumeration of well-formed dataset pairs / input sections and every single and pair of "
+        "contract violations, against the predicate of the statement (both directions)",
+        "Every base variant x every single and pair of edits (violations and benign edits at every pixel position) "
+        "through check_datasets and check_input_section: accepted <=> predicate.",
+        "Trusted: mc/ref/contract.py.",
+        "E1",
+    ),
+    "C19": (
+        "exploration",
+        "bounded exhaustive enumeration of accepted configurations (pipelines, interval forms, georeferencing, masks) run "
+        "through pandora.main, the API and main again from the saved configuration",
+        "Each case runs the command-line entry point in-process, recomputes through the API and replays cfg/config.json: "
+        "files present <=> expected, dtypes, band names, pixels equal to memory (NaN-aware), georeferencing, margins, "
+        "replay accepted with identical rasters.",
+        "Trusted: rasterio round-trip; GeoTIFF only.",
+        "E1",
+    ),
+    "C20": (
+        "exploration",
+        "explicit enumeration of the pipeline-extension graph (every accepted pipeline up to the bound, every edge "
+        "pipeline -> pipeline + one step) on the real checker, against a margins reference",
+        "Every accepted pipeline of length <= 5 (<= 7 on reduced menus in thorough) x parameters x image shapes x "
+        "matching-cost step {1,2}: exact margin entries, global margins, non-negativity, second-round invariance, "
+        "monotonicity along every edge, independence of other machines, equality with the saved configuration.",
+        "Trusted: mc/ref/margins.py; optimisation is a stub plug-in.",
+        "E2",
+    ),
 }
 
 PENDING_REASON = "check not built yet (work in progress in this session; see DESIGN.md section 7 for the build order)"
@@ -71,9 +235,10 @@ def main():
     props = [json.loads(l) for l in open(os.path.join(HERE, "properties.jsonl"), encoding="utf8")]
     checks = []
     na = []
+    enabled = set(open(os.path.join(HERE, "tools", "enabled.txt")).read().split())
     for p in props:
         pid = p["id"]
-        if pid not in CHECKS:
+        if pid not in CHECKS or pid not in enabled:
             na.append({"property_id": pid, "reason": PENDING_REASON})
             continue
         cat, tech, text, note, engine = CHECKS[pid]
